@@ -2237,6 +2237,10 @@ func (c *Client) doPlay(ra *headers.Range) (*base.Response, error) {
 		return nil, err
 	}
 
+	if c.setuppedTransport == nil {
+		return nil, fmt.Errorf("no media has been set up")
+	}
+
 	c.state = clientStatePlay
 	c.startTransportRoutines()
 	c.createWriter()
@@ -2343,6 +2347,10 @@ func (c *Client) doRecord() (*base.Response, error) {
 	})
 	if err != nil {
 		return nil, err
+	}
+
+	if c.setuppedTransport == nil {
+		return nil, fmt.Errorf("no media has been set up")
 	}
 
 	c.state = clientStateRecord
